@@ -214,6 +214,12 @@ class Interp:
                         acc += patch * wv[0, ky, kx, :]
                     else:
                         acc += np.repeat(patch, mult, axis=3) * wv[0, ky, kx, :]
+                elif w.shape[3] != C:
+                    # grouped convolution: output channels of group g see input channels [g*C/G, (g+1)*C/G)
+                    G = C // w.shape[3]
+                    cg, og = C // G, oc // G
+                    for g in range(G):
+                        acc[..., g * og:(g + 1) * og] += np.tensordot(patch[..., g * cg:(g + 1) * cg], wv[g * og:(g + 1) * og, ky, kx, :], axes=([3], [1]))
                 else:
                     acc += np.tensordot(patch, wv[:, ky, kx, :], axes=([3], [1]))
         if b_i >= 0:
